@@ -157,3 +157,27 @@ Example C10_nonvacuous : ex_present = true ->
     In (ex_rwlock, true) H).
 Proof. exact (fun E => conj (rw_witness E) (conj (rw_path_witness E) (rw_reachable_witness E))). Qed.
 Print Assumptions C10_nonvacuous.
+
+(* every getter result is a state that existed at some instant, at lock granularity: for every public getter and every lock
+   guarding tracked state / board / train tables it touches, ALL its accesses to the data under that lock lie inside one hold of
+   the lock on every path (facts generated per getter and lock from the source on every run, decided by the verified checker);
+   against the read-modify-write commands on a train the reads are ordered wholly before or wholly after the command *)
+Theorem C10_getters_single_hold : forall fn l ex gs, In (fn, l, ex, gs) c10_getter_facts ->
+  forall args p, run_call body call_depth args fn p -> sh_path l ex gs p.
+Proof. exact c10_getter_paths. Qed.
+Print Assumptions C10_getters_single_hold.
+Theorem C10_getter_vs_rmw : forall fw l gw fr xr gr,
+  In (fw, l, true, gw) c10_rmw_facts -> In (fr, l, xr, gr) c10_getter_facts ->
+  forall c0 tr c i j bi W ai bj R aj argsw argsr,
+  exec rank guard c0 tr c -> i <> j ->
+  proj i tr = bi ++ W ++ ai -> proj j tr = bj ++ R ++ aj ->
+  run_call body call_depth argsw fw W -> run_call body call_depth argsr fr R ->
+  (forall x y k k' a b, ev_at tr i k x a -> length bi <= k < length bi + length W -> is_gs gw a = true ->
+                        ev_at tr j k' y b -> length bj <= k' < length bj + length R -> is_gs gr b = true -> x < y) \/
+  (forall x y k k' a b, ev_at tr i k x a -> length bi <= k < length bi + length W -> is_gs gw a = true ->
+                        ev_at tr j k' y b -> length bj <= k' < length bj + length R -> is_gs gr b = true -> y < x).
+Proof. exact c10_getter_vs_rmw. Qed.
+Print Assumptions C10_getter_vs_rmw.
+Example C10_getters_nonvacuous : (40 <= length c10_getter_facts)%nat.
+Proof. vm_compute. repeat constructor. Qed.
+
